@@ -180,6 +180,7 @@ type ExitPanic struct{ Code int }
 
 // Exit terminates the simulated process.
 func Exit(code int) {
+	code &= 0xff // exit(2): only the low eight bits reach the parent
 	w := world()
 	w.gate(gateOther)
 	w.mu.Lock()
